@@ -652,5 +652,64 @@ mutual
         simp [List.zipIdx_cons]
 end
 
+mutual
+  theorem AllNodes.imp {P Q : Node → Prop} (h : ∀ n, P n → Q n) : ∀ (n : Node), AllNodes P n → AllNodes Q n
+    | .elem _ _ ks, hn => ⟨h _ hn.1, AllList.imp h ks hn.2⟩
+    | .leaf _, hn => h _ hn
+  theorem AllList.imp {P Q : Node → Prop} (h : ∀ n, P n → Q n) : ∀ (ks : List Node), AllList P ks → AllList Q ks
+    | [], _ => trivial
+    | k :: ks, hk => ⟨AllNodes.imp h k hk.1, AllList.imp h ks hk.2⟩
+end
+
+/-- the static hypotheses on a step list without position tests -/
+structure StepsOk (S : List Step) : Prop where
+  ne : 0 < S.length
+  na : ∀ s ∈ S, s.axis ≠ .attribute
+  wf : ∀ s ∈ S, s.test.elemWf ns
+  typed : ∀ s ∈ S, ∀ q ∈ s.preds, q.typed ns vs = true
+  nonpos : ∀ s ∈ S, ∀ q ∈ s.preds, q.numTyped vs = false
+
+theorem StepsOk.realLen {S : List Step} (h : StepsOk ns vs S) : realLen S = S.length := by
+  unfold Genshi.Path.realLen
+  cases hl : S.getLast? with
+  | none => have := List.getLast?_eq_none_iff.mp hl; have := h.ne; simp_all
+  | some last =>
+    have := h.na last (List.mem_of_getLast? hl)
+    simp [this]
+
+theorem StepsOk.lastResult {S : List Step} (h : StepsOk ns vs S) (e : Event) : lastResult S e ns = .bool true := by
+  unfold Genshi.Path.lastResult
+  cases hl : S.getLast? with
+  | none => rfl
+  | some last =>
+    have := h.na last (List.mem_of_getLast? hl)
+    simp [this]
+
+theorem StepsOk.hitOk {S : List Step} (h : StepsOk ns vs S) (n : Node) (hn : NodeFor S ns vs n) :
+    HitOk ns vs S n := by
+  intro s hs loc
+  obtain ⟨hok, htag, hleaf, hab⟩ := hn
+  exact hitE_eq_hitR ns vs s (h.wf s hs) (h.typed s hs) (h.nonpos s hs) ⟨loc, n⟩ hok htag
+    (by cases n <;> simp_all) (hab s hs)
+
+/-- **GenericStrategy without position tests.**  Over the events of an element tree the
+    matcher reports `True` exactly at the nodes the reference semantics reaches from the root
+    with the step list (first step taken as a test of the root itself). -/
+theorem generic_nonpos_marks (S : List Step) (h : StepsOk ns vs S) (root : Node) (hcl : root.clean = true)
+    (hnodes : AllNodes (NodeFor S ns vs) root) (t : LNode) :
+    selB (runOne (gStep S ns vs) gInit root.flatten).1 (eventLocs root []) t.loc
+      = RR ns (toXVars vs) S 0 ⟨[], root⟩ t := by
+  have hnpm : NoPositional ns vs S := by
+    intro s hs q hq e
+    rw [isNum_eval, h.nonpos s hs q hq]
+  rw [generic_eq_abstract ns vs S hnpm (h.lastResult ns vs)]
+  have hnpr : ∀ s ∈ S, NonPositional ns (toXVars vs) s :=
+    fun s hs => nonpositional_of_numTyped ns vs s (h.typed s hs) (h.nonpos s hs)
+  have htree := aTree ns vs S (h.realLen ns vs) h.na hnpr root hcl
+    (AllNodes.imp (fun n hn => h.hitOk ns vs n hn) root hnodes) [] [0] []
+    ⟨by simp, by intro y hy; simp at hy; subst hy; exact h.ne⟩
+  rw [htree.2 t]
+  simp
+
 end
 end Genshi.Path
